@@ -30,9 +30,27 @@ type prod struct {
 	handedN   int
 	retErr    error
 	parks     int
+	ctxErr    error  // what the producer's context reports once it has ended (Canceled, or DeadlineExceeded)
 	accStep   int    // script step in which the acceptance was observed
 	notBefore int    // script step before which the acceptance cannot have happened: the step in which the offer was called
 	pred      string // decision predicted from the quiescent model state when the offer started
+}
+
+func (p *prod) ctxErrOr() error {
+	if p.ctxErr == nil {
+		return context.Canceled
+	}
+	return p.ctxErr
+}
+
+// endsByDeadline is a context that ends like an expired deadline: once the parent is done, Err() is DeadlineExceeded.
+type endsByDeadline struct{ context.Context }
+
+func (d endsByDeadline) Err() error {
+	if d.Context.Err() != nil {
+		return context.DeadlineExceeded
+	}
+	return nil
 }
 
 type event struct {
@@ -313,15 +331,15 @@ func (s *sim) handle(ev event) {
 				s.tracef("released(%s)", p.id)
 			} else {
 				p.refused = !p.accepted
-				if !(p.cancelled && errors.Is(ev.err, context.Canceled)) {
-					s.violation("blocked-return", fmt.Sprintf("a blocked producer returned %v (cancelled=%v)", ev.err, p.cancelled), "what", "unexpected-error")
+				if !(p.cancelled && errors.Is(ev.err, p.ctxErrOr())) {
+					s.violation("blocked-return", fmt.Sprintf("a blocked producer returned %v (its context ended=%v with %v)", ev.err, p.cancelled, p.ctxErrOr()), "what", "unexpected-error")
 				}
 				s.tracef("blocked-returned(%s)=%v", p.id, errStr(ev.err))
 			}
 		case "result":
 			switch {
 			case p.completed && sameOutcome(ev.err, p.outcome):
-			case p.cancelled && errors.Is(ev.err, context.Canceled):
+			case p.cancelled && errors.Is(ev.err, p.ctxErrOr()):
 			case s.drain && !p.completed && ev.err == nil: // drain: every export returns nil; the hand-off event may still be queued behind this one
 			default:
 				s.violation("own-outcome", fmt.Sprintf("wait-for-result producer of %s received %v; its own request finished=%v with %v, cancelled=%v", p.id, ev.err, p.completed, errStr(p.outcome), p.cancelled), "what", "wrong-outcome")
@@ -559,6 +577,11 @@ func (s *sim) offer(p *prod) {
 	p.pred = s.predict(p)
 	ctx, cancel := context.WithCancel(context.Background())
 	p.cancel = cancel
+	p.ctxErr = context.Canceled
+	if len(s.prods)%2 == 1 {
+		// this producer's context ends the way a deadline does: Err() is context.DeadlineExceeded
+		ctx, p.ctxErr = endsByDeadline{ctx}, context.DeadlineExceeded
+	}
 	hc := hookCtx{Context: ctx, onDone: func(space bool) {
 		k := "park-result"
 		if space {
